@@ -3,6 +3,7 @@ package main
 // Typed evaluation of spec expressions into SMT terms over a program state.
 
 import (
+	"golang.org/x/tools/go/ssa"
 	"fmt"
 	"go/types"
 	"math/big"
@@ -23,6 +24,7 @@ type Env struct {
 	now   *State           // the current state, reachable from inside old()/atlock() via now(e)
 	snapPrefix string      // non-empty when evaluating a callee's clauses at a call site
 	local func(name string) (Val, types.Type, bool)
+	at    *ssa.BasicBlock // where the clause is evaluated (loop invariants): selects the map-range iterator of visited()
 	pkg   *types.Package
 	depth int
 }
@@ -647,6 +649,39 @@ func (e *Env) call(x *ECall) (Val, types.Type) {
 		}
 		ev := t.elemsVar(sl.Elem())
 		return Val{T: t.seqOf(fmt.Sprintf("(select %s (sbase %s))", t.get(e.st, ev.Name), v.T), sl.Elem())}, types.NewArray(sl.Elem(), -1)
+	case "in", "add":
+		// in(s, x) / add(s, x) on the spec-only set type set[T]
+		sv, sty := arg(0)
+		x0, xt := arg(1)
+		at, ok := sty.Underlying().(*types.Array)
+		if !ok || at.Len() != -2 {
+			return e.fail("%s() needs a set[T]", x.Fun)
+		}
+		xv := e.coerce(x0, xt, at.Elem())
+		if x.Fun == "in" {
+			return Val{T: fmt.Sprintf("(select %s %s)", sv.T, xv)}, tBool
+		}
+		return Val{T: fmt.Sprintf("(store %s %s true)", sv.T, xv)}, sty
+	case "visited":
+		// visited(k): key k has already been yielded by the map `range` loop this invariant belongs to
+		// (the innermost map range whose Range instruction dominates the point of evaluation)
+		if e.at == nil {
+			return e.fail("visited() is only available in loop invariants")
+		}
+		var best *ssa.Range
+		for rg := range t.rangeIters {
+			if rg.Block() == e.at || rg.Block().Dominates(e.at) {
+				if best == nil || best.Block().Dominates(rg.Block()) {
+					best = rg
+				}
+			}
+		}
+		if best == nil {
+			return e.fail("visited(): no map range loop in scope")
+		}
+		k, kt := arg(0)
+		mt := best.X.Type().Underlying().(*types.Map)
+		return Val{T: fmt.Sprintf("(select %s %s)", t.get(e.st, t.rangeIters[best]), e.coerce(k, kt, mt.Key()))}, tBool
 	case "has":
 		m, mt := arg(0)
 		k, kt := arg(1)
